@@ -245,6 +245,10 @@ type vScenario struct {
 	convNames []string
 	orphanFlag map[string]bool
 	viewConverted bool
+	stateHist []vStateSnap
+	afterCrash bool
+	partial   map[string]bool
+	crashes   []*vCrash
 }
 
 func (s *vScenario) fid(name string) string {
@@ -394,6 +398,11 @@ func (s *vScenario) project() (*vState, error) {
 	for _, n := range names {
 		c, err := s.fileContent(filepath.Join(s.dirs["index"], n))
 		if err != nil {
+			if s.afterCrash {
+				// a half-written file left behind by the killed process: not an index file
+				s.partial[n] = true
+				continue
+			}
 			return nil, fmt.Errorf("index file %s unreadable: %w", n, err)
 		}
 		st.Files[s.fid(n)] = c
@@ -658,7 +667,7 @@ func (s *vScenario) observe(st *vState) *vObs {
 	}
 	ents, _ := os.ReadDir(s.dirs["index"])
 	for _, e := range ents {
-		if strings.HasSuffix(e.Name(), ".idx") {
+		if strings.HasSuffix(e.Name(), ".idx") && !s.partial[e.Name()] {
 			o.Dir = append(o.Dir, s.fid(e.Name()))
 		}
 	}
